@@ -297,10 +297,16 @@ def run(ctx):
     check_init(ctx, db)
     check_extrema_consumers(ctx, db)
     check_dimensions(ctx, db)
+    from .. import fresh
+    nf = 0
+    for f in db.fn('gdstk::Cell::convex_hull', all=True):
+        if f.body is not None:
+            nf += fresh.check_function(ctx, f)
+    ctx.require('R-FRESH scratch arrays in Cell::convex_hull', nf, 4)
 
 
 MANIFEST = dict(
-    text='Decides structural necessary conditions of exact boxes/hulls for every hierarchy: both cell aggregators visit all five element arrays and the hull takes every repetition offset; every running-extremum update compares and assigns matching components, keeps one role per accumulator, covers min.x/min.y/max.x/max.y in each loop and feeds minima from min corners and maxima from max corners; every read of a cached hull/box is guarded by the matching valid flag of the same entry or follows recomputation by the matching function, and cache entries are stored under the cell\'s own name with exactly the computed flag; per-axis extreme offsets never feed a convex hull for Explicit repetitions; every box routine establishes the inverted box before any return; cache-less overloads are thin wrappers; the box routines are dimensionally consistent (coordinates only meet coordinates); every consumer of Repetition::get_extrema walks the whole list; the axis-aligned shortcut of Reference::bounding_box is taken only for exact multiples of 90 degrees. Hull correctness (qhull) and numeric extremes are not decided.',
+    text='Decides structural necessary conditions of exact boxes/hulls for every hierarchy: both cell aggregators visit all five element arrays and the hull takes every repetition offset; every running-extremum update compares and assigns matching components, keeps one role per accumulator, covers min.x/min.y/max.x/max.y in each loop and feeds minima from min corners and maxima from max corners; every read of a cached hull/box is guarded by the matching valid flag of the same entry or follows recomputation by the matching function, and cache entries are stored under the cell\'s own name with exactly the computed flag; per-axis extreme offsets never feed a convex hull for Explicit repetitions; every box routine establishes the inverted box before any return; cache-less overloads are thin wrappers; the scratch array of repetition offsets is emptied after every repeated element of Cell::convex_hull; the box routines are dimensionally consistent (coordinates only meet coordinates); every consumer of Repetition::get_extrema walks the whole list; the axis-aligned shortcut of Reference::bounding_box is taken only for exact multiples of 90 degrees. Hull correctness (qhull) and numeric extremes are not decided.',
     note='Trusted: clang front end, gx, sa rules; Repetition::get_extrema semantics are C11\'s obligations.',
     technique='aggregate-completeness and flag-guard dominance rules over typed AST/CFG + running-extremum idiom algebra + who-may-flow effect rule',
     design='§4 C09')
